@@ -20,6 +20,7 @@ type Val struct {
 	LV   *LValue  // interior pointer (field / element address)
 	Addr *AddrVal // unsafe address arithmetic
 	Clos *ClosVal // closure created in this activation
+	IntOf string  // uintptr converted from this integer term (int mode)
 }
 
 type LVKind int
@@ -80,9 +81,12 @@ type Obligation struct {
 	Model   string
 	QFile   string
 	Answers map[string]string
+	nDecl, nAssert, nQ, nReads int
+	origin  *ssa.BasicBlock
 }
 
 type QHyp struct {
+	Origin  *ssa.BasicBlock
 	Var     string // unique placeholder token
 	Sort    string
 	Guard   string // may mention Var
@@ -93,12 +97,36 @@ type QHyp struct {
 
 // Prelude is the shared text of all queries of one function run.
 type Prelude struct {
+	aliases map[string]string // fresh array symbol -> region key
 	decls   strings.Builder
-	asserts strings.Builder
+	asserts assertBuf
 	qhyps   []*QHyp
 	reads   map[string]bool
 	readsL  []string
+	readsO  []*ssa.BasicBlock
 }
+
+type assertRec struct {
+	text   string
+	origin *ssa.BasicBlock
+}
+
+// assertBuf records every prelude assertion together with the block of the
+// function under verification that was being executed when it was made, so
+// that a query can leave out facts from blocks that cannot precede its goal.
+type assertBuf struct {
+	recs []assertRec
+	cur  **ssa.BasicBlock
+}
+
+func (a *assertBuf) WriteString(s string) {
+	var o *ssa.BasicBlock
+	if a.cur != nil {
+		o = *a.cur
+	}
+	a.recs = append(a.recs, assertRec{s, o})
+}
+func (a *assertBuf) Len() int { return len(a.recs) }
 
 type State struct {
 	H     map[string]string // heap name -> current SMT term (a declared constant)
@@ -152,6 +180,7 @@ type Eng struct {
 	activeProp     string
 	declared       map[string]bool
 	errOutOfSubset error
+	curOrigin      *ssa.BasicBlock
 	specMath       int
 }
 
@@ -807,6 +836,7 @@ func (e *Eng) noteRead(idx string) {
 	if !e.pre.reads[idx] {
 		e.pre.reads[idx] = true
 		e.pre.readsL = append(e.pre.readsL, idx)
+		e.pre.readsO = append(e.pre.readsO, e.curOrigin)
 	}
 }
 
@@ -849,4 +879,16 @@ func (e *Eng) sortedHeapNames() []string {
 	n := append([]string(nil), e.hord...)
 	sort.Strings(n)
 	return n
+}
+
+func (e *Eng) addQ(q *QHyp) {
+	q.Origin = e.curOrigin
+	e.pre.qhyps = append(e.pre.qhyps, q)
+}
+
+func (e *Eng) alias(sym, key string) {
+	if e.pre.aliases == nil {
+		e.pre.aliases = map[string]string{}
+	}
+	e.pre.aliases[sym] = key
 }
